@@ -88,6 +88,21 @@ def params_to_string(params):
     return ', '.join(items)
 
 
+def to_alias(value):
+    """alias written as an identifier or as a quoted string -> Identifier with exactly one part
+    (`x AS "a.b"` is the name a.b, `x AS a.b` is not an alias)"""
+    from mindsdb_sql.parser.ast.select.identifier import Identifier
+    from mindsdb_sql.parser.ast.select.star import Star
+
+    if isinstance(value, str):
+        if value == '':
+            raise ParsingException('Alias can not be empty')
+        return Identifier(parts=[value])
+    if len(value.parts) != 1 or isinstance(value.parts[0], Star):
+        raise ParsingException('Alias can not contain multiple parts (dots).')
+    return value
+
+
 class JoinType:
     JOIN = 'JOIN'
     INNER_JOIN = 'INNER JOIN'
